@@ -15,17 +15,19 @@ CHECKS = {
              'instruction bytes (quick 2, thorough 3). Longer programs only by composition with C03/C08/C10. Trusted: executor, solvers.',
     ),
     'C06': dict(
-        text='PARTIAL. Decided: a zero/NaN radius arc is exactly one LineTo to the mapped endpoint (bit exact, all inputs; found the unmapped endpoint defect), the relative '
-             'form is the absolute form measured from the pen (relational), relative degenerate arcs in the exact-real reading. NOT decided: segment count, end point, '
-             'points on the ellipse, sweep/large-arc extent of non-degenerate arcs (trigonometric identities over uninterpreted sin/cos/acos are out of reach).',
-        note='Non-degenerate arcs are only compared concretely (testdata/arcs.ivg, bit for bit against the native code) in the translator self-test. '
-             'math.Sin/Cos/Acos are uninterpreted stubs; amd64 float->int semantics.',
+        text='PARTIAL. Decided: a zero/NaN radius arc is exactly one LineTo to the mapped endpoint (bit exact, all inputs; found the unmapped endpoint defect); the relative '
+             'form is the absolute form measured from the pen (relational); relative degenerate arcs in the exact-real reading; and, for non-degenerate arcs in the exact-real reading with '
+             'uninterpreted sin/cos/acos: at most four cubics, each control and end point equal to the one the SVG centre parameterisation (written from the SVG implementation notes) prescribes, '
+             'mapped under a non-uniform off-origin viewBox, last end point = mapped arc end point (given the F.6.5 end-angle theorem as a stated assumption).',
+        note='Non-degenerate arcs: x-axis rotation 0 and 1/8 turn only, one viewBox map, exact reals (no rounding); the extent real trigonometry gives the sweep is not derivable with uninterpreted functions. '
+             'Violated obligations of this reading usually come back unknown, so each case also runs 6 solver-drawn witnesses of the input assumptions through the native harness (oracle); '
+             'passing witnesses claim nothing. amd64 float->int semantics.',
     ),
     'C07': dict(
         text='One-step inductive check that Encoder and Renderer selector read-backs agree modulo 64 after any styling call from any agreeing pair of states '
              '(found the missing increment tracking), plus bounded pipelines (K symbolic styling calls + a path; selector writes + incrementing writes + Generator.SetGradient) '
              'through Renderer directly and through Encoder->Decode->Renderer with identical rasteriser logs and paints; DestinationLogger forwards every method once.',
-        note='Bounds: K styling calls (quick 2, thorough 3) with symbolic selectors/adj/incr/colours and short-form numbers; 0..2 incrementing writes before the gradient helper. '
+        note='Bounds: K styling calls (quick 2, thorough 4) with symbolic selectors/adj/incr/colours and short-form numbers; 0..2 incrementing writes before the gradient helper. '
              'fmt.Printf is a no-op stub. Trusted: executor, solvers.',
     ),
     'C10': dict(
@@ -44,7 +46,7 @@ CHECKS = {
     'C05': dict(
         text='Bit-exact symbolic execution of the 16 non-arc drawing verbs, StartPath, the close-and-move operations and ClosePathEndPath from an arbitrary geometric state '
              '(viewBox, rectangle size and origin, pen, sub-path start, smooth-curve memory all symbolic) against a reference pen/affine-map model; rasteriser calls must match bit for bit.',
-        note='Bounds: sequences of K verbs (quick 1, thorough 2) from an arbitrary state; the reference uses the same formula shape s*(v + -min) so equivalent refactorings may become inconclusive, never violations. Arcs are C06.',
+        note='Bounds: sequences of K verbs (quick 1, thorough 3) from an arbitrary state; the reference uses the same formula shape s*(v + -min) so equivalent refactorings may become inconclusive, never violations. Arcs are C06.',
     ),
     'C11': dict(
         text='decode() executed symbolically with a recording printer and a recording destination on arbitrary instruction bytes: byte columns reproduce the input, each column <= 4 bytes, '
@@ -66,7 +68,7 @@ CHECKS = {
         text='Spread.Clamp bit-exactly over float64 |x| < 2^31 for all four modes (found the odd-integer reflect defect); Gradient.At against the specification as a function of the offset '
              '(stop colours exact, end colours, transparent cases) and of the pixel (offset = matrix applied to the pixel centre, distance for radial), relationally; '
              'pixel-to-gradient matrix and interpolation in the exact-real reading.',
-        note='Bounds: 2 stops with concrete offsets in quick, 2-3 symbolic stops in thorough; interpolation premultiplication only in exact reals (bit-exact float64 monotonicity times out). Trusted: executor, solvers.',
+        note='Bounds: 2 stops (quick) / 3 stops (thorough) with concrete offsets and symbolic colours; the matrix also after the same gradient was painted on a raster of another size (SetRasterizer, no Reset); interpolation premultiplication only in exact reals (bit-exact float64 monotonicity times out). Trusted: executor, solvers.',
     ),
     'C16': dict(
         text='PARTIAL, repository side only: vec.Rasterizer.Draw applies the configured operator to the first Draw and source-over afterwards; the Renderer issues origin-independent '
@@ -76,23 +78,23 @@ CHECKS = {
     'C17': dict(
         text='Encoder.Reset from an arbitrary dirty state (any mode, error, pending run, selectors, LOD, flags, buffer contents) is field-equal to a fresh Encoder after the same Reset, '
              'and K further arbitrary calls + Bytes give identical bytes/errors; Bytes is idempotent; Renderer.Reset from an arbitrary dirty state renders a well-formed program like a fresh Renderer.',
-        note='Bounds: K = 1 (quick) / 2 (thorough) calls after Reset. Field equality after Reset is the inductive argument for longer programs. Determinism: the executor found no read of clock/random/map order on any path.',
+        note='Bounds: K = 1 (quick) / 2 (thorough) calls after Reset, Reset with every combination of default/custom viewBox and palette. Field equality after Reset is the inductive argument for longer programs. Determinism: the executor found no read of clock/random/map order on any path.',
     ),
     'C18': dict(
         text='PARTIAL (sequential footprint instead of schedules): every package-level variable and every shared input is a read-only region during symbolic execution of decode / '
              'disassemble / encode / render entry points; two pipelines interleaved operation by operation produce what each produces alone. No shared writable location implies no data race under the Go memory model.',
-        note='Schedules as such are not explored; fmt, bytes.Buffer, x/image/vector are outside the model and trusted to be goroutine-safe. Bounds: L arbitrary instruction bytes (quick 3, thorough 5).',
+        note='Schedules as such are not explored; fmt, bytes.Buffer, x/image/vector are outside the model and trusted to be goroutine-safe. Bounds: L arbitrary instruction bytes (quick 3, thorough 4); colour helpers on arbitrary palette/register entries; a zero-value Encoder queried by any getter, then Reset with default/custom metadata, next to an untouched Encoder. sync.Pool is modelled as always empty, sync/atomic.Value as a plain cell (a Store into a package-level Value is a write).',
     ),
     'C19': dict(
         text='SetGradient into a recorder whose calls are replayed on the specification machine (registers named by the gradient value hold stops and matrix, selectors restored), '
              'rejection conditions for stop counts {0..3,57,58,59,64,255,256,257,300} and every CSEL byte on recorder / Renderer / Encoder (found the uint8 wrap and the unreduced selector), '
              'linear / circular / elliptical geometry in the exact-real reading.',
-        note='Geometry is decided as algebra over the reals (rounding error of the matrices not modelled: rounded-real does not terminate, 12 error terms with cancellation). Trusted: executor, solvers.',
+        note='Registers also for a Generator that set a gradient of the same geometry before a Reset of the destination. Geometry is decided as algebra over the reals (rounding error of the matrices not modelled: rounded-real does not terminate, 12 error terms with cancellation). Trusted: executor, solvers.',
     ),
     'C20': dict(
         text='PARTIAL: per-verb transform dispatch of both front ends bit-exactly for every verb; Concat as matrix composition in exact reals; SetPathData / ParsePathData on path strings of '
              'fixed skeletons (every verb letter, implicit repetition, zM join) whose digits are symbolic, with text->float parsing an uninterpreted function of the token bytes; ParsePath opacity/circle logic.',
-        note='Not decided: that decimal text denotes the float it is parsed to (strconv / fmt scanning are stubs), XML handling, skeletons beyond the enumerated ones. Bounds: symbolic digits per string (quick 2/4, thorough 4/12).',
+        note='Not decided: that decimal text denotes the float it is parsed to (strconv / fmt scanning are stubs), XML handling, skeletons beyond the enumerated ones. Bounds: symbolic digits per string (quick 2/4, thorough 4/12); a Generator that converted a path under another transform before (relational, arbitrary transforms).',
     ),
     'C02': dict(
         text='Bounded symbolic execution of the real decoder on fully symbolic byte windows: every index, slice bound, nil dereference, '
@@ -113,14 +115,15 @@ CHECKS = {
         text='Bit-vector symbolic execution of colour codecs, Encoder.SetCReg, the suggested-palette writer/reader and Color.Resolve over all '
              'byte patterns / all 2^32 RGBA values / all (t,c0,c1) with fully symbolic palette and registers; blend decided as three chained lemmas. '
              'Right level: tables and arithmetic on bytes with rare failing inputs (found: 1-byte palette form for translucent colours).',
-        note='Bounds: suggested palettes with n explicit symbolic entries (quick 2, thorough 4). Premultiplication lemma needs cvc5 --solve-bv-as-int. '
+        note='Bounds: suggested palettes with n explicit symbolic entries (quick 2, thorough 8), after a default or a custom viewBox chunk. Premultiplication lemma needs cvc5 --solve-bv-as-int. '
              'Trusted: executor, solvers.',
     ),
     'C12': dict(
         text='AspectMeet/AspectSlice executed symbolically in a rounded-real reading (each float32 operation = exact*(1+d), |d|<=2^-24) with the '
              'specification stated in exact reals: unsat means the property holds for all real-rounded executions in the stated ranges; exact parts '
              '(kept dimension, Size) are decided bit-exactly in IEEE floating point.',
-        note='Rounded-real over-approximates float32 only inside [2^-40,2^40] (no overflow/underflow modelled). Non-linear real arithmetic by z3 nlsat. '
+        note='Rounded-real over-approximates float32 inside [2^-70,2^70]; every rounded operation carries a no-overflow side obligation, and when one of them has a witness the same harness is '
+             'run bit-exactly (IEEE float32 incl. Inf/NaN) to hunt for a violation in the overflow region. Non-linear real arithmetic by z3 nlsat. '
              'Trusted: executor, solvers, the error model.',
     ),
     'C08': dict(
